@@ -120,6 +120,28 @@ def subscribeAccountMaster (master amount : α) : Except Err α :=
 def withdrawAccountMaster (master amount : α) : Except Err α :=
   if lt amount zero then .error .value else if lt master amount then .error .value else .ok (master - amount)
 
+/-- what a transfer between the master account and a portfolio consists of: the new master balance, and the amount and time
+handed to the portfolio's own `subscribe_funds` / `withdraw_funds` -/
+structure Xfer (α : Type) where
+  master : α
+  amount : α
+  time : Int
+deriving Repr
+
+/-- `subscribe_funds_to_portfolio`, broker side (`known`: the portfolio id exists) -/
+def subscribePortfolioXfer (known : Bool) (clock : Int) (master amount : α) : Except Err (Xfer α) :=
+  if lt amount zero then .error .value
+  else if !known then .error .key
+  else if lt master amount then .error .value
+  else .ok { master := master - amount, amount := amount, time := clock }
+
+/-- `withdraw_funds_from_portfolio`, broker side -/
+def withdrawPortfolioXfer (known : Bool) (clock : Int) (master pfCash amount : α) : Except Err (Xfer α) :=
+  if lt amount zero then .error .value
+  else if !known then .error .key
+  else if lt pfCash amount then .error .value
+  else .ok { master := master + amount, amount := amount, time := clock }
+
 /-- `get_account_cash_balance(currency)`: one balance per supported currency, all zero but the base currency's -/
 def accountCash (b : Broker α) (supported : List String) (base cur : String) : Except Err α :=
   if supported.contains cur then .ok (if cur == base then b.master else zero) else .error .value
